@@ -115,6 +115,10 @@ class TlcResult:
 
     def errtext(self):
         keep = [l for l in self.out.splitlines() if not l.startswith('<<"PV"')]
+        # the lines around the first "Error:" say what went wrong; the tail is usually a long state trace
+        first = next((i for i, l in enumerate(keep) if l.startswith("Error:")), None)
+        if first is not None:
+            return "\n".join(keep[max(0, first - 2):first + 25] + ["..."] + keep[-6:])
         return "\n".join(keep[-40:])
 
 
